@@ -1,6 +1,8 @@
 package main
 
 import (
+	"fmt"
+	"go/token"
 	"strings"
 
 	"golang.org/x/tools/go/ssa"
@@ -41,38 +43,71 @@ func runC19(c *Ctx) {
 			ver := desc(cc.Args[1])
 			data := desc(cc.Args[2])
 			sink := []ssa.Instruction{ci.(ssa.Instruction)}
-			// (a) offered
-			offeredEntry := ""
-			va := c.mustPass(fn, sink, func(f string) bool {
-				pre := "T:lookup(p0.config.ProtocolVersionMap," + ver + ")#1"
-				if f == pre {
-					offeredEntry = "lookup(p0.config.ProtocolVersionMap," + ver + ")#0"
-					return true
+			// the checks may live in a helper that returns the decoded data together with its verdict: then the
+			// call must lie behind the helper's nil error, and the three conditions are required of every success
+			// return of the helper (in its own vocabulary)
+			if ex, ok := cc.Args[2].(*ssa.Extract); ok {
+				if call, ok := ex.Tuple.(*ssa.Call); ok {
+					if h := samePkgHelper(fn, &call.Call); h != nil && errorResultIndex(h) >= 0 {
+						ei := errorResultIndex(h)
+						errFact := fmt.Sprintf("%s#%d == nil", desc(call), ei)
+						v := c.mustPass(fn, sink, func(f string) bool { return f == errFact })
+						c.Check(v[0].OK, "accept-decoded", key+":via:"+h.Name(), ci.Pos(), "the helper's verdict is checked before its data is passed on", "FinishedFunc is reachable although "+h.Name()+" reported an error ("+v[0].Witness+")")
+						hver := ""
+						for i, a := range call.Call.Args {
+							if desc(a) == ver {
+								hver = fmt.Sprintf("p%d", i)
+							}
+						}
+						if hver == "" {
+							c.Undecided("%s: the accepted version is not passed to %s", key, h.Name())
+						}
+						for _, r := range successReturns(h) {
+							ret := r.(*ssa.Return)
+							c.acceptChecks(h, ssaFuncKey(h), []ssa.Instruction{r}, r.Pos(), hver, desc(returnedValue(ret, ex.Index)))
+						}
+						continue
+					}
 				}
-				return false
-			})
-			c.Check(va[0].OK, "accept-offered", key, ci.Pos(), "dominated by a hit in the proposed version map for "+ver,
-				"FinishedFunc is reachable without the accepted version having been found in config.ProtocolVersionMap ("+va[0].Witness+")")
-			// (b) decoded by the version's decoder, and the decoded value is what is passed on
-			dataCall := strings.TrimSuffix(data, "#0")
-			vb := c.mustPass(fn, sink, func(f string) bool { return f == dataCall+"#1 == nil" })
-			okb := vb[0].OK && strings.HasSuffix(data, "#0") && strings.Contains(dataCall, "NewVersionDataFromCborFunc(")
-			c.Check(okb, "accept-decoded", key, ci.Pos(), "version data passed on is the result of the version's decoder and its error was checked",
-				"version data handed to FinishedFunc is not the checked result of NewVersionDataFromCborFunc ("+vb[0].Witness+")")
-			// (c) magic equality with the offered entry
-			vc := c.mustPass(fn, sink, func(f string) bool {
-				if offeredEntry == "" {
-					return false
-				}
-				a := "call:protocol.VersionData.NetworkMagic(" + data + ")"
-				b := "call:protocol.VersionData.NetworkMagic(" + offeredEntry + ")"
-				return f == a+" == "+b || f == b+" == "+a
-			})
-			c.Check(vc[0].OK, "accept-magic", key, ci.Pos(), "dominated by NetworkMagic(decoded) == NetworkMagic(offered entry)",
-				"FinishedFunc is reachable without the accepted network magic having been compared with the offered one ("+vc[0].Witness+")")
+			}
+			c.acceptChecks(fn, key, sink, ci.Pos(), ver, data)
 		}
 	}
 	if n == 0 {
 		c.Undecided("no version-selecting FinishedFunc call found in the handshake client")
 	}
+}
+
+// acceptChecks: the three conditions under which version data may be passed on (offered, decoded by the version's own
+// decoder with its error checked, network magic equal to the offered entry's), required at sinks of fn.
+func (c *Ctx) acceptChecks(fn *ssa.Function, key string, sink []ssa.Instruction, pos token.Pos, ver, data string) {
+	// (a) offered
+	offeredEntry := ""
+	va := c.mustPass(fn, sink, func(f string) bool {
+		pre := "T:lookup(p0.config.ProtocolVersionMap," + ver + ")#1"
+		if f == pre {
+			offeredEntry = "lookup(p0.config.ProtocolVersionMap," + ver + ")#0"
+			return true
+		}
+		return false
+	})
+	c.Check(va[0].OK, "accept-offered", key, pos, "dominated by a hit in the proposed version map for "+ver,
+		"FinishedFunc is reachable without the accepted version having been found in config.ProtocolVersionMap ("+va[0].Witness+")")
+	// (b) decoded by the version's decoder, and the decoded value is what is passed on
+	dataCall := strings.TrimSuffix(data, "#0")
+	vb := c.mustPass(fn, sink, func(f string) bool { return f == dataCall+"#1 == nil" })
+	okb := vb[0].OK && strings.HasSuffix(data, "#0") && strings.Contains(dataCall, "NewVersionDataFromCborFunc(")
+	c.Check(okb, "accept-decoded", key, pos, "version data passed on is the result of the version's decoder and its error was checked",
+		"version data handed to FinishedFunc is not the checked result of NewVersionDataFromCborFunc ("+vb[0].Witness+")")
+	// (c) magic equality with the offered entry
+	vc := c.mustPass(fn, sink, func(f string) bool {
+		if offeredEntry == "" {
+			return false
+		}
+		a := "call:protocol.VersionData.NetworkMagic(" + data + ")"
+		b := "call:protocol.VersionData.NetworkMagic(" + offeredEntry + ")"
+		return f == a+" == "+b || f == b+" == "+a
+	})
+	c.Check(vc[0].OK, "accept-magic", key, pos, "dominated by NetworkMagic(decoded) == NetworkMagic(offered entry)",
+		"FinishedFunc is reachable without the accepted network magic having been compared with the offered one ("+vc[0].Witness+")")
 }
